@@ -9,9 +9,12 @@ A *case* is  `<Sig> ; <pool> ; <expr>`  e.g.  `V0 ; 1D 2V ; bind 0 2 LV ref d1 r
   expr  : prefix notation (the Lean driver reads the same text with the C++-only annotations stripped):
             L<r>            functor object accepting any arguments, returning r (V|I)
             F<r><n>         function pointer r(int × n)
+            G<r><q><m>      function pointer r(sigc::slot<q(int × m)>)       — takes a functor bound by value
+            H<r><q><m>      function pointer r(int, sigc::slot<q(int × m)>)    (like run_then(int, continuation))
             M<r><n> <obj>   mem_fun(obj, &T::m)                 S<r><n> <obj>  obj.make_slot()
             C<r><n> <obj>   signal_connect(sig, obj, &T::m)     (top level only)
-            bind <pos|L> <k> <f> <barg × k>      barg: val | ref <obj> | cref <obj> | copy <obj>
+            bind <pos|L> <k> <f> <barg × k>      barg: val | ref <obj> | cref <obj> | copy <obj> | fun<r><n> <expr>
+                                                 (fun: the functor expression <expr>, of signature r(int × n), bound BY VALUE)
             bret <f> <barg>   hide <pos|L> <f>   hret <f>   rt <f>   rtr <f>
             c1 <s> <g>   c2 <s> <g1> <g2>   ec <f> <c>   to <k> <f> <obj × k>   slot<r><n> <f>
           objects: d<id> v<id> u<id> (classes D V U), s<id> t<id> (signals)
@@ -40,6 +43,8 @@ def parse_expr(toks):
         return ("L", t[1]), r
     if t[0] == "F" and len(t) == 3:
         return ("F", t[1], int(t[2])), r
+    if t[0] in "GH" and len(t) == 4 and t[1] in "VI" and t[2] in "VI":
+        return (t[0], t[1], t[2], int(t[3])), r
     if t[0] in "MSC" and len(t) == 3 and t[1] in "VI":
         return (t[0], t[1], int(t[2]), r[0]), r[1:]
     if t == "bind":
@@ -90,6 +95,9 @@ def parse_barg(r):
         return ("val",), r[1:]
     if r[0] in ("ref", "cref", "copy"):
         return (r[0], r[1]), r[2:]
+    if r[0].startswith("fun") and len(r[0]) == 5 and r[0][3] in "VI" and r[0][4].isdigit():
+        e, rest = parse_expr(r[1:])
+        return ("fun", r[0][3], int(r[0][4]), e), rest
     raise ValueError("bad bound argument " + r[0])
 
 
@@ -101,8 +109,12 @@ def parse_case(text):
     return sig, pool.split(), node
 
 
-def show_barg(b):
-    return b[0] if b[0] == "val" else b[0] + " " + b[1]
+def show_barg(b, lean=False):
+    if b[0] == "val":
+        return "val"
+    if b[0] == "fun":
+        return ("fun " if lean else "fun%s%d " % (b[1], b[2])) + show(b[3], lean)
+    return b[0] + " " + (lean_obj(b[1]) if lean else b[1])
 
 
 def show(n, lean=False):
@@ -112,15 +124,17 @@ def show(n, lean=False):
         return "leaf" if lean else "L" + n[1]
     if k == "F":
         return "leaf" if lean else "F%s%d" % (n[1], n[2])
+    if k in ("G", "H"):
+        return "leaf" if lean else "%s%s%s%d" % (k, n[1], n[2], n[3])
     if k in ("M", "S", "C"):
         if lean:
             return {"M": "mf", "S": "ms", "C": "sc"}[k] + " " + lean_obj(n[3])
         return "%s%s%d %s" % (k, n[1], n[2], n[3])
     if k == "bind":
         return "bind %s %d %s%s" % ("L" if n[1] is None else n[1], len(n[3]), show(n[2], lean),
-                                    "".join(" " + show_barg(lean_b(b) if lean else b) for b in n[3]))
+                                    "".join(" " + show_barg(b, lean) for b in n[3]))
     if k == "bret":
-        return "bret %s %s" % (show(n[1], lean), show_barg(lean_b(n[2]) if lean else n[2]))
+        return "bret %s %s" % (show(n[1], lean), show_barg(n[2], lean))
     if k == "hide":
         return "hide %s %s" % ("L" if n[1] is None else n[1], show(n[2], lean))
     if k in ("hret", "rt", "rtr"):
@@ -140,10 +154,6 @@ def lean_obj(o):
     return {"d": "d", "v": "v", "u": "u", "s": "u", "t": "d"}[o[0]] + o[1:]
 
 
-def lean_b(b):
-    return b if b[0] == "val" else (b[0], lean_obj(b[1]))
-
-
 def case_text(sig, pool, node):
     return "%s ; %s ; %s" % (sig, " ".join(pool), show(node))
 
@@ -154,13 +164,14 @@ def case_text(sig, pool, node):
 
 
 def children(n):
+    """sub-expressions: the adapted functor(s) first, then the functor expressions bound by value"""
     k = n[0]
-    if k in ("L", "F", "M", "S", "C"):
+    if k in ("L", "F", "G", "H", "M", "S", "C"):
         return []
     if k == "bind":
-        return [n[2]]
+        return [n[2]] + [b[3] for b in n[3] if b[0] == "fun"]
     if k == "bret":
-        return [n[1]]
+        return [n[1]] + ([n[2][3]] if n[2][0] == "fun" else [])
     if k == "hide":
         return [n[2]]
     if k in ("hret", "rt", "rtr"):
@@ -174,12 +185,18 @@ def children(n):
     raise ValueError(k)
 
 
+def _refill(bs, cs):
+    """bound arguments with their functor expressions replaced, in order, by cs"""
+    cs = list(cs)
+    return tuple(("fun", b[1], b[2], cs.pop(0)) if b[0] == "fun" else b for b in bs)
+
+
 def with_children(n, cs):
     k = n[0]
     if k == "bind":
-        return ("bind", n[1], cs[0], n[3])
+        return ("bind", n[1], cs[0], _refill(n[3], cs[1:]))
     if k == "bret":
-        return ("bret", cs[0], n[2])
+        return ("bret", cs[0], _refill((n[2],), cs[1:])[0])
     if k == "hide":
         return ("hide", n[1], cs[0])
     if k in ("hret", "rt", "rtr"):
@@ -206,6 +223,25 @@ def kinds(n, acc=None):
     return acc
 
 
+def bound_functors(n, acc=None, inside=False):
+    """every functor expression bound by value: (holder 'bind'|'bret', index in the bound tuple, size of the tuple,
+    bind position, the bound expression, nested inside another bound functor?)"""
+    acc = acc if acc is not None else []
+    k = n[0]
+    funs = []
+    if k == "bind":
+        for i, b in enumerate(n[3]):
+            if b[0] == "fun":
+                acc.append(("bind", i, len(n[3]), n[1], b[3], inside))
+                funs.append(b[3])
+    if k == "bret" and n[2][0] == "fun":
+        acc.append(("bret", 0, 1, None, n[2][3], inside))
+        funs.append(n[2][3])
+    for c in children(n):
+        bound_functors(c, acc, inside or any(c is f for f in funs))
+    return acc
+
+
 def objects(n, acc=None):
     """every object occurrence as (how, obj): how in mf ms sc ref cref copy to"""
     acc = acc if acc is not None else []
@@ -214,9 +250,9 @@ def objects(n, acc=None):
         acc.append(({"M": "mf", "S": "ms", "C": "sc"}[k], n[3]))
     if k == "bind":
         for b in n[3]:
-            if b[0] != "val":
+            if b[0] not in ("val", "fun"):
                 acc.append((b[0], b[1]))
-    if k == "bret" and n[2][0] != "val":
+    if k == "bret" and n[2][0] not in ("val", "fun"):
         acc.append((n[2][0], n[2][1]))
     if k == "to":
         for o in n[2]:
@@ -231,13 +267,14 @@ def is_trackable_obj(o):
 
 
 def referenced(n):
-    """statement side, computed from the text: ids of the trackables the expression refers to by reference"""
+    """statement side, computed from the text: ids of the trackables the expression refers to by reference
+    (a functor bound by value refers to whatever it refers to; `objects` descends into it)"""
     return [int(o[1:]) for how, o in objects(n) if how != "copy" and is_trackable_obj(o)]
 
 
 def ret_of(n):
     k = n[0]
-    if k in ("L", "F", "M", "S", "C"):
+    if k in ("L", "F", "G", "H", "M", "S", "C"):
         return n[1]
     if k == "bind":
         return ret_of(n[2])
@@ -259,7 +296,14 @@ def ret_of(n):
 
 
 def btype(b):
+    """argument type tag of a bound value: 'i' int, 'o' object, 's<r><n>' functor of signature r(int × n)"""
+    if b[0] == "fun":
+        return "s%s%d" % (b[1], b[2])
     return "i" if b[0] == "val" else "o"
+
+
+def fun_args(b):
+    return ("i",) * b[2]
 
 
 def child_args(n, args):
@@ -268,11 +312,13 @@ def child_args(n, args):
     if k == "bind":
         bt = tuple(btype(b) for b in n[3])
         pos = len(args) if n[1] is None else n[1]
-        return [tuple(args[:pos]) + bt + tuple(args[pos:])]
+        return [tuple(args[:pos]) + bt + tuple(args[pos:])] + [fun_args(b) for b in n[3] if b[0] == "fun"]
     if k == "hide":
         pos = len(args) - 1 if n[1] is None else n[1]
         return [tuple(args[:pos]) + tuple(args[pos + 1:])]
-    if k in ("bret", "hret", "rt", "rtr", "to", "slot"):
+    if k == "bret":
+        return [tuple(args)] + ([fun_args(n[2])] if n[2][0] == "fun" else [])
+    if k in ("hret", "rt", "rtr", "to", "slot"):
         return [tuple(args)]
     if k == "c1":
         return [("i" if ret_of(n[2]) == "I" else "o",), tuple(args)]
@@ -284,7 +330,7 @@ def child_args(n, args):
 
 
 def well_typed(n, ret, args, top=True):
-    """can `n` be called with `args` (tuple of 'i' int / 'o' object reference) giving `ret`?"""
+    """can `n` be called with `args` (tuple of 'i' int / 'o' object reference / 's<r><n>' functor value) giving `ret`?"""
     k = n[0]
     ints = all(a == "i" for a in args)
     if ret_of(n) != ret:
@@ -293,6 +339,10 @@ def well_typed(n, ret, args, top=True):
         return ret in "VI"
     if k in ("F", "M"):
         return ints and n[2] == len(args) and len(args) <= 2
+    if k == "G":
+        return ret in "VI" and n[3] <= 1 and tuple(args) == ("s%s%d" % (n[2], n[3]),)
+    if k == "H":
+        return ret in "VI" and n[3] <= 1 and tuple(args) == ("i", "s%s%d" % (n[2], n[3]))
     if k == "S":
         return ints and n[2] == len(args) and len(args) <= 1
     if k == "C":
@@ -304,10 +354,12 @@ def well_typed(n, ret, args, top=True):
             return False
         if not n[3]:
             return False
+        if not all(fun_ok(b) for b in n[3]):
+            return False
         return well_typed(cs[0], ret, ca[0], False)
     if k == "bret":
         r0 = ret_of(cs[0])
-        return r0 in "VI" and well_typed(cs[0], r0, ca[0], False)
+        return r0 in "VI" and fun_ok(n[2]) and well_typed(cs[0], r0, ca[0], False)
     if k == "hide":
         if not args or (n[1] is not None and n[1] >= len(args)):
             return False
@@ -333,6 +385,13 @@ def well_typed(n, ret, args, top=True):
     if k == "slot":
         return ints and len(args) <= 1 and n[2] == len(args) and ret in "VI" and well_typed(cs[0], ret, ca[0], False)
     return False
+
+
+def fun_ok(b):
+    """a functor bound by value must itself be a well-typed expression of its declared signature"""
+    if b[0] != "fun":
+        return True
+    return b[1] in "VI" and 0 <= b[2] <= 1 and well_typed(b[3], b[1], fun_args(b), False)
 
 
 def case_ok(sig, pool, node):
@@ -375,6 +434,8 @@ def cpp_barg(b):
         return "std::ref(%s)" % cpp_obj(b[1])
     if b[0] == "cref":
         return "std::cref(%s)" % cpp_obj(b[1])
+    if b[0] == "fun":
+        return cpp(b[3])  # the functor itself, by value
     return cpp_obj(b[1])  # by value
 
 
@@ -384,6 +445,10 @@ def cpp(n):
         return "vs::Leaf%s()" % n[1]
     if k == "F":
         return "&vs::f%s%d" % (n[1], n[2])
+    if k == "G":
+        return "&vs::g%s_%s%d" % (n[1], n[2], n[3])
+    if k == "H":
+        return "&vs::h%s_%s%d" % (n[1], n[2], n[3])
     if k == "M":
         # directly-trackable objects bind a method inherited from a non-trackable base (b*), the others their own (m*)
         # … and cycle through the four cv-qualified overloads of mem_fun (by arity and result kind)
@@ -433,10 +498,10 @@ def cpp_case(cid, sig, pool, node):
     sigcpp = SIG_CPP[(ret, n)]
     if node[0] == "C":
         body = ("vs::case_body_connect<%s>(%d, \"%s\", {%s}, [](sigc::signal<%s>& sg, vs::Pool& p) "
-                "{ static int turn = 0; "      # the const-method and the non-const-method overload take turns
-                "return (turn++ %% 2 == 0) ? sigc::signal_connect(sg, %s, &%s::k%s%d) : sigc::signal_connect(sg, %s, &%s::m%s%d); });"
-                % (sigcpp, cid, spec, vs_, sigcpp, cpp_obj(node[3]), CLS_NAME[node[3][0]], node[1], node[2],
-                   cpp_obj(node[3]), CLS_NAME[node[3][0]], node[1], node[2]))
+                "{ return sigc::signal_connect(sg, %s, &%s::%s%s%d); });"
+                % (sigcpp, cid, spec, vs_, sigcpp, cpp_obj(node[3]), CLS_NAME[node[3][0]],
+                   "k" if (cid + node[2]) % 2 else "m",      # const-method and non-const-method overloads alternate
+                   node[1], node[2]))
     else:
         body = ("vs::case_body<%s>(%d, \"%s\", {%s}, [](vs::Pool& p) { return %s; });"
                 % (sigcpp, cid, spec, vs_, cpp(node)))
@@ -479,6 +544,7 @@ class Env:
             nid += 1
         self.nid = nid
         self.signals = {}
+        self.fun_w = 2      # weight of a functor-valued bound argument among the bound-argument kinds
 
     def trackables(self):
         return [o for o in self.objs if o[0] != "u"]
@@ -504,12 +570,40 @@ class Env:
         return o
 
 
-def gen_barg(env, force_obj=False):
+def gen_barg(env, force_obj=False, dmax=0):
+    """one bound argument; a functor bound by value has depth ≤ dmax"""
     rng = env.rng
-    k = rng.weighted([("val", 0 if force_obj else 3), ("ref", 5), ("cref", 3), ("copy", 2)])
+    k = rng.weighted([("val", 0 if force_obj else 3), ("ref", 5), ("cref", 3), ("copy", 2), ("fun", env.fun_w)])
     if k == "val":
         return ("val",)
+    if k == "fun":
+        return gen_fun_barg(env, dmax)
     return (k, env.any_obj())
+
+
+def gen_fun_barg(env, dmax):
+    """a functor expression bound by value: mem_fun functors, plain functors, make_slot functors, slots stored by
+    value, adaptor expressions — of depth ≤ dmax"""
+    rng = env.rng
+    r = rng.choice(["V", "I"])
+    n = rng.weighted([(0, 3), (1, 2)])
+    args = ("i",) * n
+    deep = 3 if dmax >= 1 else 0
+    style = rng.weighted([("M", 5), ("leaf", 1), ("S", 1), ("slot", deep), ("expr", deep)])
+    e = None
+    if style == "leaf":
+        e = ("L", r) if rng.chance(0.5) else ("F", r, n)
+    elif style == "S":
+        o = env.signal(r, n)
+        e = ("S", r, n, o) if o else None
+    elif style == "slot":
+        inner = gen(env, r, args, rng.below(dmax), False)
+        e = ("slot", r, n, inner) if inner is not None else None
+    elif style == "expr":
+        e = gen(env, r, args, 1 + rng.below(dmax), False)
+    if e is None:
+        e = ("M", r, n, env.any_obj())
+    return ("fun", r, n, e)
 
 
 def gen_leaf(env, ret, args):
@@ -522,9 +616,15 @@ def gen_leaf(env, ret, args):
         opts += [("F", 1), ("M", 6)]
     if ints and len(args) <= 1:
         opts += [("S", 2)]
+    if len(args) == 1 and args[0][0] == "s":
+        opts += [("G", 6)]
+    if len(args) == 2 and args[0] == "i" and args[1][0] == "s":
+        opts += [("H", 8)]
     k = rng.weighted(opts)
     if k == "L":
         return ("L", ret)
+    if k in ("G", "H"):
+        return (k, ret, args[-1][1], int(args[-1][2]))
     if k == "F":
         return ("F", ret, len(args))
     if k == "M":
@@ -561,16 +661,16 @@ def gen(env, ret, args, d, exact=True):
         n = None
         if k in ("bindI", "bindL") and len(args) <= 3:
             nb = rng.weighted([(1, 4), (2, 5), (3, 2)])
-            bs = tuple(gen_barg(env) for _ in range(nb))
+            bs = tuple(gen_barg(env, False, d - 1) for _ in range(nb))
             if all(b[0] == "val" for b in bs) and rng.chance(0.7):
-                bs = bs[:-1] + (gen_barg(env, True),)
+                bs = bs[:-1] + (gen_barg(env, True, d - 1),)
             pos = None if k == "bindL" else rng.below(len(args) + 1)
             p = len(args) if pos is None else pos
             f = sub(ret, args[:p] + tuple(btype(b) for b in bs) + args[p:], True)
             if f is not None:
                 n = ("bind", pos, f, bs)
         elif k == "bret" and ret in "IO":
-            b = ("val",) if ret == "I" else gen_barg(env, True)
+            b = ("val",) if ret == "I" else gen_barg(env, True, d - 1)
             f = sub(rng.choice(["V", "I"]), args, True)
             if f is not None:
                 n = ("bret", f, b)
@@ -643,18 +743,23 @@ def gen(env, ret, args, d, exact=True):
 
 def random_case(rng, max_depth=3):
     """(sig, pool, node)"""
-    for _ in range(50):
+    focus = rng.chance(0.15)     # this case must contain a functor bound by value
+    for _ in range(200 if focus else 50):
         ntrk = rng.weighted([(1, 2), (2, 5), (3, 4)])
         env = Env(rng, ntrk, rng.chance(0.25))
+        if focus:
+            env.fun_w = 14
         sig = rng.weighted([("V0", 4), ("I0", 2), ("V1", 3), ("I1", 2)])
         ret, n = SIGS[sig]
-        d = rng.weighted([(0, 1), (1, 4), (2, 6), (3, 6)])
-        d = min(d, max_depth)
+        d = rng.weighted([(0, 0 if focus else 1), (1, 4), (2, 6), (3, 6)])
+        d = max(1, min(d, max_depth)) if focus else min(d, max_depth)
         if d == 0 and rng.chance(0.3) and n <= 1:
             node = ("C", ret, n, env.any_obj())
         else:
             node = gen(env, ret, ("i",) * n, d)
         if node is None:
+            continue
+        if focus and not bound_functors(node):
             continue
         if not referenced(node) and rng.chance(0.9):
             continue
@@ -679,7 +784,7 @@ def skeleton_wrappers():
         def w(ret, args, inner, H):
             if pos is not None and pos > len(args):
                 return None
-            bs = tuple(("val",) if b == "val" else (b, H()) for b in bargs)
+            bs = tuple(skeleton_barg(b, H) for b in bargs)
             p = len(args) if pos is None else pos
             f = inner(ret, args[:p] + tuple(btype(b) for b in bs) + args[p:])
             return None if f is None else ("bind", pos, f, bs)
@@ -691,18 +796,41 @@ def skeleton_wrappers():
     W.append(("bind0-val-ref", bind_w(0, ("val", "ref"))))
     W.append(("bind1-copy-ref-ref", bind_w(1, ("copy", "ref", "ref"))))
     W.append(("bind0-cref", bind_w(0, ("cref",))))
+    # functors bound by value, first / middle / last of the tuple
+    W.append(("bindL-funM", bind_w(None, ("funM",))))
+    W.append(("bind0-val-funSlot", bind_w(0, ("val", "funSlot"))))
+    W.append(("bind1-funAd-ref-funM", bind_w(1, ("funAd", "ref", "funM"))))
+
+    def bind_fun_deep(ret, args, inner, H):
+        # the chain continues INSIDE the functor bound by value
+        if ret not in "VI":
+            return None
+        e = inner("V", ())
+        return None if e is None else ("bind", None, ("L", ret), (("val",), ("fun", "V", 0, e)))
+
+    W.append(("bindL-val-fun-deep", bind_fun_deep))
 
     def bret_w(kind):
         def w(ret, args, inner, H):
             if (kind == "val") != (ret == "I") or ret == "V":
                 return None
             f = inner("V", args)
-            return None if f is None else ("bret", f, ("val",) if kind == "val" else (kind, H()))
+            return None if f is None else ("bret", f, skeleton_barg(kind, H))
         return w
 
     W.append(("bret-val", bret_w("val")))
     W.append(("bret-ref", bret_w("ref")))
     W.append(("bret-cref", bret_w("cref")))
+    W.append(("bret-funM", bret_w("funM")))
+    W.append(("bret-funSlot", bret_w("funSlot")))
+
+    def bret_fun_deep(ret, args, inner, H):
+        if ret != "O":
+            return None
+        e = inner("I", ("i",))
+        return None if e is None else ("bret", ("L", "V"), ("fun", "I", 1, e))
+
+    W.append(("bret-fun-deep", bret_fun_deep))
 
     def hide_w(pos):
         def w(ret, args, inner, H):
@@ -816,6 +944,20 @@ def skeleton_wrappers():
     return W
 
 
+def skeleton_barg(kind, H):
+    """canonical bound arguments of the enumeration; funM / funSlot / funAd: a mem_fun functor, a slot, an adaptor
+    expression bound by value"""
+    if kind == "val":
+        return ("val",)
+    if kind == "funM":
+        return ("fun", "V", 0, ("M", "V", 0, H()))
+    if kind == "funSlot":
+        return ("fun", "I", 1, ("slot", "I", 1, ("M", "I", 1, H())))
+    if kind == "funAd":
+        return ("fun", "V", 1, ("hide", None, ("M", "V", 0, H())))
+    return (kind, H())
+
+
 def skeleton_leaves(ret, args, H):
     """depth-0 skeletons of that type"""
     out = []
@@ -876,12 +1018,16 @@ def substitute(node, m):
     k = node[0]
     if k in ("M", "S", "C"):
         return (k, node[1], node[2], so(node[3]))
+    def sb(b):
+        if b[0] == "val":
+            return b
+        if b[0] == "fun":
+            return ("fun", b[1], b[2], substitute(b[3], m))
+        return (b[0], so(b[1]))
     if k == "bind":
-        return ("bind", node[1], substitute(node[2], m),
-                tuple(b if b[0] == "val" else (b[0], so(b[1])) for b in node[3]))
+        return ("bind", node[1], substitute(node[2], m), tuple(sb(b) for b in node[3]))
     if k == "bret":
-        b = node[2]
-        return ("bret", substitute(node[1], m), b if b[0] == "val" else (b[0], so(b[1])))
+        return ("bret", substitute(node[1], m), sb(node[2]))
     if k == "to":
         return ("to", substitute(node[1], m), tuple(so(o) for o in node[2]))
     cs = [substitute(c, m) for c in children(node)]
